@@ -100,8 +100,27 @@ def gen_spec(rng, nlayers=None, nwn=None, ngas=None, contribs=None, emission=Fal
     return spec
 
 
-def build(spec, emission=False, direct=False, order=None):
-    """returns a built forward model for the spec (caches are reset and filled)"""
+def write_ktables(spec, kdir, weights, kcoeff=None):
+    """write one pickle k-table per gas. kcoeff[g] has axes [P,T,wn,ng]; default = degenerate copy of the
+    cross-section table of the spec"""
+    import os
+    import pickle
+    import shutil
+    shutil.rmtree(kdir, ignore_errors=True)
+    os.makedirs(kdir)
+    for g in spec['gases']:
+        o = spec['opac'][g]
+        kc = kcoeff[g] if kcoeff is not None else np.repeat(np.array(o['tab'])[..., None], len(weights), axis=-1)
+        d = dict(bin_centers=np.array(o['wn'], float), ngauss=len(weights), t=np.array(o['Tg'], float),
+                 p=np.array(o['Pg'], float) / 1e5, kcoeff=np.array(kc, float),
+                 weights=np.array(weights, float), name=g)
+        with open(os.path.join(kdir, '%s.pickle' % g), 'wb') as fh:
+            pickle.dump(d, fh)
+
+
+def build(spec, emission=False, direct=False, order=None, kdir=None):
+    """returns a built forward model for the spec (caches are reset and filled).
+    kdir: directory holding k-table pickle files -> correlated-k mode"""
     from taurex.cache import OpacityCache, CIACache
     from taurex.data.planet import Planet
     from taurex.data.stellar import BlackbodyStar
@@ -111,10 +130,17 @@ def build(spec, emission=False, direct=False, order=None):
     from taurex.model import TransmissionModel, EmissionModel, DirectImageModel
     from taurex import contributions as CT
     reset_caches()
-    Mem = mem_opacity_class()
-    for g in spec['gases']:
-        o = spec['opac'][g]
-        OpacityCache().add_opacity(Mem(g, o['Tg'], o['Pg'], o['tab'], o['wn'], o.get('mode', 'linear')))
+    if kdir is not None:
+        from taurex.cache import GlobalCache
+        from taurex.cache.ktablecache import KTableCache
+        GlobalCache()['opacity_method'] = 'ktables'
+        GlobalCache()['ktable_path'] = kdir
+        KTableCache().clear_cache()
+    else:
+        Mem = mem_opacity_class()
+        for g in spec['gases']:
+            o = spec['opac'][g]
+            OpacityCache().add_opacity(Mem(g, o['Tg'], o['Pg'], o['tab'], o['wn'], o.get('mode', 'linear')))
     if 'CIA' in spec['contribs']:
         CIACache().add_cia(mem_cia_class()(spec['cia']['pair'], spec['wn'], spec['cia']['xsec']))
     chem = TaurexChemistry(fill_gases=['H2', 'He'], ratio=spec['he_h2'])
